@@ -27,6 +27,7 @@ type Mutant struct {
 	Rule      string `json:"expect_rule,omitempty"`
 	Construct string `json:"expect_construct,omitempty"` // substring
 	Why       string `json:"why,omitempty"`
+	Patch     string `json:"patch,omitempty"` // unified diff (absolute path) instead of File/Old/New
 }
 
 // Edit is an additional replacement.
@@ -77,7 +78,78 @@ func LoadMutants(verif string) ([]Mutant, error) {
 		}
 		out = append(out, ms...)
 	}
+	// every stored seeded change is a mutant of the property it breaks
+	metas, _ := filepath.Glob(filepath.Join(verif, "seeded", "*", "meta.json"))
+	sort.Strings(metas)
+	for _, mf := range metas {
+		b, err := os.ReadFile(mf)
+		if err != nil {
+			return nil, err
+		}
+		var meta struct {
+			ID     string `json:"id"`
+			Breaks string `json:"breaks_property"`
+			Needs  string `json:"needs_to_manifest"`
+		}
+		if err := json.Unmarshal(b, &meta); err != nil {
+			return nil, fmt.Errorf("%s: %w", mf, err)
+		}
+		out = append(out, Mutant{Name: "seeded-" + meta.ID, Property: meta.Breaks, Kind: "mutant", Patch: filepath.Join(filepath.Dir(mf), "patch.diff"), Why: meta.Needs})
+	}
 	return out, nil
+}
+
+// patchOverlay applies a unified diff to copies of the files it names and
+// returns the patched contents keyed by their path in the repository.
+func patchOverlay(repo, patch string) (map[string]string, bool, string) {
+	pb, err := os.ReadFile(patch)
+	if err != nil {
+		return nil, false, err.Error()
+	}
+	files := map[string]bool{}
+	for _, ln := range strings.Split(string(pb), "\n") {
+		for _, pre := range []string{"--- a/", "+++ b/"} {
+			if strings.HasPrefix(ln, pre) {
+				files[strings.TrimSpace(strings.TrimPrefix(ln, pre))] = true
+			}
+		}
+	}
+	if len(files) == 0 {
+		return nil, false, "no files named in the patch"
+	}
+	dir, err := os.MkdirTemp("", "gorumscheck-patch-")
+	if err != nil {
+		return nil, false, err.Error()
+	}
+	defer os.RemoveAll(dir)
+	for f := range files {
+		b, err := os.ReadFile(filepath.Join(repo, f))
+		if err != nil {
+			continue // a file the patch creates
+		}
+		dst := filepath.Join(dir, f)
+		if err := os.MkdirAll(filepath.Dir(dst), 0o755); err != nil {
+			return nil, false, err.Error()
+		}
+		if err := os.WriteFile(dst, b, 0o644); err != nil {
+			return nil, false, err.Error()
+		}
+	}
+	cmd := exec.Command("git", "apply", patch)
+	cmd.Dir = dir
+	cmd.Env = append(os.Environ(), "GIT_DIR=/nonexistent", "GIT_CEILING_DIRECTORIES="+filepath.Dir(dir))
+	if out, err := cmd.CombinedOutput(); err != nil {
+		return nil, false, "patch does not apply to the current tree: " + firstLines(string(out), 2)
+	}
+	content := map[string]string{}
+	for f := range files {
+		b, err := os.ReadFile(filepath.Join(dir, f))
+		if err != nil {
+			return nil, false, "patch deletes " + f + ": not expressible as an overlay"
+		}
+		content[filepath.Join(repo, f)] = string(b)
+	}
+	return content, true, ""
 }
 
 // Run executes the corpus entries of one property.
@@ -223,6 +295,9 @@ func parseViolated(out string) map[string]bool {
 }
 
 func buildOverlay(repo string, m Mutant) (map[string]string, bool, string) {
+	if m.Patch != "" {
+		return patchOverlay(repo, m.Patch)
+	}
 	edits := append([]Edit{{m.File, m.Old, m.New}}, m.Edits...)
 	content := map[string]string{}
 	for _, e := range edits {
